@@ -189,6 +189,8 @@ func WithCommittee(index common.CommitteeIndex) AttSearchOption {
 }
 
 func (ap *AttestationPool) Search(opts ...AttSearchOption) (out []*phase0.Attestation) {
+	ap.RLock()
+	defer ap.RUnlock()
 	var conf attSearch
 	for _, opt := range opts {
 		opt(&conf)
